@@ -26,6 +26,10 @@ object's apply() must be bit-identical to the saving object's.
 Engine L (sub-check resave): what the path holds BEFORE the save is varied - statistics of another
 feature dimension (wider / narrower / equal) saved there by a real object, or the bytes of another
 target kind's writer - so that the new contents are shorter or longer than the old ones.
+
+Engine L (sub-check npz_keys): the KEY STRING of an .npz target is varied over strings another addressing
+convention could claim (digits only, explicit 'arr_N', number-like, non-ASCII digits) in every sequence of
+up to three keyed saves into one archive; every entry is reloaded by its key.
 """
 import copy
 import hashlib
@@ -928,6 +932,141 @@ def _replay_resave(case, seed):
     return core.result(v)
 
 
+
+# ------------------------------------------------------------------ the alphabet of .npz keys (engine L + short histories)
+#
+# "`key` ... data will be indexed by `key` in the archive": a key is a NAME, whatever it looks like.  The
+# searches above use the keys None / 'k' / 'other'; here the KEY STRING is varied over strings that another
+# addressing convention could claim (digits only: a position; 'arr_N' given explicitly: the default names;
+# a sign, a decimal point, a non-ASCII digit, another case), and several keyed saves (one object with its
+# own statistics per save, overwrite=False) go into ONE archive in every order.  After every save every
+# entry the archive should hold is reloaded BY ITS KEY (and 'arr_0' also without a key) and must give the
+# apply() of the object that saved it; numpy.load must list exactly the expected names.
+
+K_KEYS = (None, "0", "1", "1001", "007", "arr_0", "arr_1", "k", "-1", "１", "K")
+K_DEPTH = 3
+
+
+def _k_class(key):
+    if key is None:
+        return "none"
+    if key.isascii() and key.isdigit():
+        return "digits"
+    if key.startswith("arr_"):
+        return "default_name"
+    if key.isdigit():
+        return "unicode_digit"
+    if key.lstrip("-").replace(".", "", 1).isdigit():
+        return "number_like"
+    return "name"
+
+
+def _k_stats(seed, i):
+    """statistics of the i-th save of a sequence: 4 frames x 3 coefficients, different for every i"""
+    g = sig.signal(seed, 4 * AF, offset=70 + i).reshape(4, AF)
+    return sig.ro((g * 2.0 - 1.0) * (1.0 + i) + np.array([0.0, -3.0, 5.0]) * (i + 1))
+
+
+def _k_run(seed, keys, compress, scratch):
+    """one sequence of keyed saves into one new archive -> (violations, observation)"""
+    from pydrobert.speech import post
+
+    d = _case_dir(scratch)
+    try:
+        path = os.path.join(d, "s.npz")
+        g = sig.signal(seed, 3 * AF, offset=51).reshape(3, AF) * 2.0 - 1.0
+        probes = [(sig.ro(g), -1), (sig.ro(g[0]), -1)]
+        model = {}            # entry name -> (apply() of the object that saved it, number of the save)
+        case = dict(keys=list(keys), compress=bool(compress))
+        for i, key in enumerate(keys):
+            obj = post.Standardize()
+            obj.accumulate(_k_stats(seed, i), -1)
+            name = key
+            if name is None:
+                n = 0
+                while "arr_%d" % n in model:
+                    n += 1
+                name = "arr_%d" % n
+            tags = dict(check="npz_keys", key_class=_k_class(key), entries_before=min(len(model), 2),
+                        replaces=(name in model))
+            r = computers.call(obj.save, path, key, compress, False)
+            if r[0] != "ok":
+                return [core.violation(dict(tags, what="save_raises", exc=r[1]),
+                                       "save %d of keys %r (save(path, key=%r, compress=%r, overwrite=False)) "
+                                       "raised %s: %s" % (i + 1, list(keys), key, compress, r[1], r[2]), case)], None
+            model[name] = (_alpha_apply(obj, probes), i)
+            with np.load(path) as z:
+                listed = sorted(z.files)
+            if listed != sorted(model):
+                return [core.violation(dict(tags, what="npz_entries"),
+                                       "after save %d of keys %r the archive lists %r, expected %r" % (
+                                           i + 1, list(keys), listed, sorted(model)), case)], None
+            for nm in sorted(model):
+                for kw in ([dict(key=nm)] + ([{}] if nm == "arr_0" else [])):
+                    t = dict(check="npz_keys", key_class=_k_class(nm) if kw else "none",
+                             entries=min(len(model), 3), keyed_reload=bool(kw))
+                    how = "after saves under %r: Standardize('s.npz'%s)" % (
+                        list(keys[:i + 1]), ", key=%r" % nm if kw else "")
+                    rr = computers.call(lambda: post.Standardize(path, **kw))
+                    if rr[0] != "ok":
+                        return [core.violation(dict(t, what="reload_raises", exc=rr[1]),
+                                               "%s raised %s: %s" % (how, rr[1], rr[2]), case)], None
+                    if _alpha_apply(rr[1], probes) != model[nm][0]:
+                        other = [o for o in sorted(model) if o != nm and
+                                 _alpha_apply(rr[1], probes) == model[o][0]]
+                        return [core.violation(
+                            dict(t, what="reload_differs", is_another_entry=bool(other)),
+                            "%s does not give the apply() of the object saved under that name (save %d)%s" % (
+                                how, model[nm][1] + 1,
+                                "; it gives that of entry %r" % other[0] if other else ""), case)], None
+        return [], (len(model), tuple(sorted(set(_k_class(k) for k in keys))))
+    finally:
+        shutil.rmtree(d, ignore_errors=True)
+
+
+def _eval_keys(pt, seed):
+    first, compress = pt
+    first = [None if k == "<none>" else k for k in first]
+    scratch = tempfile.mkdtemp(prefix="verif-")
+    viol, evals, nontriv, obs = [], 0, 0, set()
+    try:
+        import itertools
+
+        # a one-key point is that sequence alone; a two-key point is the pair and every longer sequence
+        for n in (range(0, 1) if len(first) == 1 else range(0, K_DEPTH - len(first) + 1)):
+            for rest in itertools.product(K_KEYS, repeat=n):
+                keys = list(first) + list(rest)
+                v, o = _k_run(seed, keys, compress, scratch)
+                evals += 1
+                nontriv += len(keys) > 1
+                viol.extend(v)
+                if o is not None:
+                    obs.add(o)
+                if len(viol) >= 40:
+                    break
+    finally:
+        shutil.rmtree(scratch, ignore_errors=True)
+    return core.result(viol, evals=evals, nontrivial_count=nontriv, obs=sorted(map(str, obs)), obs_is_set=True,
+                       sample=dict(first_keys=first, compress=compress,
+                                   inner="the sequence alone" if len(first) == 1 else
+                                   "every continuation by 0..%d further keys" % (K_DEPTH - len(first))))
+
+
+def _replay_keys(case, seed):
+    scratch = tempfile.mkdtemp(prefix="verif-")
+    try:
+        v, _ = _k_run(seed, case["keys"], case["compress"], scratch)
+    finally:
+        shutil.rmtree(scratch, ignore_errors=True)
+    return core.result(v)
+
+
+def _key_points():
+    enc = [("<none>" if k is None else k) for k in K_KEYS]
+    return [[[a, b], c] for a in enc for b in enc for c in (False, True)] + \
+        [[[a], c] for a in enc for c in (False, True)]
+
+
 def subchecks(tier, seed):
     cs = _configs(tier)
     return [core.SubCheck(
@@ -973,4 +1112,16 @@ def subchecks(tier, seed):
             axes=dict(target=[list(t) for t in R_TARGETS], F1=list(R_DIMS), F2=list(R_DIMS),
                       first_writer=list(R_FIRST), dtype=list(A_DTYPES),
                       pruning="npz target with overwrite=False over a non-archive: left open by the docstring"),
-            replay=lambda case: _replay_resave(case, seed))]
+            replay=lambda case: _replay_resave(case, seed)),
+        core.SubCheck(
+            "npz_keys", _key_points(), lambda p: _eval_keys(p, seed),
+            "the KEY STRING of an .npz target: every sequence of 1..%d saves (one object with its own statistics "
+            "per save, overwrite=False, compress fixed per point) into one new archive under keys from %r "
+            "(None = the first unused 'arr_N'; digit-only keys, explicitly given default names, number-like and "
+            "non-ASCII-digit keys, two cases; repeated keys replace); after every save numpy.load lists exactly the "
+            "expected names and every entry reloaded BY ITS KEY (arr_0 also without key) gives the apply() of the "
+            "object that saved it, bit-identical on 2 probes; a point is one key alone, or two keys and "
+            "every continuation by 0..%d further keys; non-trivial = more than one save" % (
+                K_DEPTH, list(K_KEYS), K_DEPTH - 2),
+            axes=dict(keys=[("<none>" if k is None else k) for k in K_KEYS], depth=K_DEPTH, compress=[False, True]),
+            replay=lambda case: _replay_keys(case, seed))]
